@@ -19,7 +19,8 @@ def main():
         silent = sorted(k for k, v in res.items() if v == "silent" and k != own)
         mach = sorted(k for k, v in res.items() if v not in ("VIOLATION", "silent"))
         extra = (" machinery: " + ",".join(mach)) if mach else ""
-        rows.append(f"| {name} | {meta.get('needs_to_manifest', '')} | {own}: {own_v} | {', '.join(others) or '-'} | {', '.join(silent) or '-'}{extra} |")
+        silent_txt = ", ".join(silent) if len(silent) <= 6 else f"{len(silent)} other checks"
+        rows.append(f"| {name} | {meta.get('needs_to_manifest', '')} | {own}: {own_v} | {', '.join(others) or '-'} | {silent_txt or '-'}{extra} |")
     table = "\n".join(rows)
     path = f"{ROOT}/DESIGN.md"
     s = open(path).read()
